@@ -239,7 +239,11 @@ def check_D1(ctx, facts, rule='C05.D1'):
           and any(s['rv']['k'] == 'aggregate' and s['rv'].get('agg') == 'adt' and strip_generics(s['rv']['adt']) == P + 'KeyspaceDiff' for _b, _j, s in b.assigns())]
     if not gk or kd is None:
         ctx.bad(rule, 'hop2|get_keyspace_diff', '', 'get_keyspace_diff / KeyspaceDiff not found')
-    for b in gk:
+    # SEM: get_keyspace_diff and handle_removals interpreted (repair_abs): every computed entry arrives in KeyspaceDiff with its own
+    # stamp, in its own list, and removals are sent as deletes with exactly those stamps under the read-repair source; subsumes hop2
+    import repair_abs
+    hop_sem = repair_abs.check_repair(ctx, facts, rule + '.SEM' if not rule.endswith('.SEM') else rule)
+    for b in ([] if hop_sem else gk):
         flow = Flow(b)
         sends = [(bb, t) for bb, t in b.calls() if cname(t) == 'puppet::ActorMailbox::send' and 'Diff' in ' '.join(t.get('gargs') or [])]
         good = False
